@@ -24,6 +24,12 @@ func coreC16(tier string) []RunSpec {
 			}
 		}
 	}
+	// one storage error at the k-th storage call of a swap / melt / mint / internal settlement
+	for _, op := range []int{1, 2, 0, 12} {
+		for k := 1; k <= 10; k++ {
+			out = append(out, RunSpec{Profile: "core:db-error", Params: map[string]int{"faults": 2, "fop": op, "fpos": k, "maxbal": 0, "mintmax": 0, "meltmax": 0}})
+		}
+	}
 	return out
 }
 
@@ -79,6 +85,15 @@ func (m *MW) CheckBalances(mint, when string) {
 		return
 	}
 	bi, br := m.bookTotals(mint)
+	if m.Faulted {
+		// After an injected storage error an operation may have failed half way: the mint may have
+		// stored signatures it never returned, or consumed inputs of a request it answered with an
+		// error (C07's business). What C16 still demands: every signature that WAS handed out and
+		// every proof whose consumption WAS acknowledged is counted, the total is the difference
+		// of the two reports, and it never goes negative.
+		m.checkBalancesFaulted(mint, when, issued, redeemed, total, bi, br)
+		return
+	}
 	if mapStr(issued) != mapStr(bi) {
 		W.Book.Violate("C16.issued_wrong", when, "IssuedEcash reports [%s], signatures handed out sum to [%s]", mapStr(issued), mapStr(bi))
 	}
@@ -115,6 +130,44 @@ func (m *MW) CheckBalances(mint, when string) {
 		}
 		m.rc.S.Probe("c16_info_checked")
 	}
+}
+
+func (m *MW) checkBalancesFaulted(mint, when string, issued, redeemed map[string]uint64, total uint64, bi, br map[string]uint64) {
+	W := m.W
+	ids := map[string]bool{}
+	for k := range bi {
+		ids[k] = true
+	}
+	for k := range br {
+		ids[k] = true
+	}
+	sorted := make([]string, 0, len(ids))
+	for k := range ids {
+		sorted = append(sorted, k)
+	}
+	sort.Strings(sorted)
+	for _, k := range sorted {
+		if issued[k] < bi[k] {
+			W.Book.Violate("C16.issued_wrong", when+":faulted", "IssuedEcash reports %d for keyset %s, signatures handed out sum to %d", issued[k], k, bi[k])
+		}
+		if redeemed[k] < br[k] {
+			W.Book.Violate("C16.redeemed_wrong", when+":faulted", "RedeemedEcash reports %d for keyset %s, acknowledged consumptions sum to %d", redeemed[k], k, br[k])
+		}
+	}
+	var ti, tr uint64
+	for _, v := range issued {
+		ti += v
+	}
+	for _, v := range redeemed {
+		tr += v
+	}
+	if tr > ti {
+		W.Book.Violate("C16.negative_balance", when+":faulted", "reported redeemed %d exceeds reported issued %d (TotalBalance %d)", tr, ti, total)
+	} else if total != ti-tr {
+		W.Book.Violate("C16.total_wrong", when+":faulted", "TotalBalance reports %d, reported issued-redeemed is %d", total, ti-tr)
+	}
+	m.rc.S.Probe("c16_balances_compared_faulted")
+	m.rc.Nontrivial = true
 }
 
 // StepQuoteLimits: quote requests around every boundary, compared with an overflow-free evaluation.
@@ -155,7 +208,7 @@ func (m *MW) StepQuoteLimits() {
 	amt := cands[m.T.Choose("lim.amt", len(cands))]
 	melt := m.T.Chance("lim.melt", 1, 3)
 	m.rc.Op(fmt.Sprintf("quote-limit melt=%v amt=%d", melt, amt))
-	m.rc.S.BeginEpisode()
+	m.begin()
 	m.rc.S.Run1(m.name("lim"), W.Ext, func() {
 		if melt {
 			if amt == 0 || amt > 1<<40 {
@@ -226,7 +279,7 @@ func (m *MW) StepFillToMax() {
 	}
 	m.rc.Op(fmt.Sprintf("fill-to-max %d", room))
 	ks := W.ActiveKeyset(mint)
-	m.rc.S.BeginEpisode()
+	m.begin()
 	m.rc.S.Run1(m.name("fill"), W.Ext, func() {
 		q, _ := m.User.ReqMintQuote(mint, room, false)
 		if q == nil {
@@ -274,11 +327,44 @@ func runC16(rc *RunCtx) {
 	m.CheckBalances("A", "start")
 	// weights:       fund swap melt resolve replay dup race checkstate restore restart clock adv internal rotate
 	weights := []int{1, 4, 4, 2, 1, 0, 1, 0, 0, 2, 0, 1, 1, 0}
+	// a separate configuration injects storage errors into ordinary operations; from the first
+	// injected error on, the comparison is the relaxed one of checkBalancesFaulted and the limit
+	// predicates (which need the exact balance) are no longer judged
+	faults := rc.P("faults", -1)
+	if faults < 0 {
+		faults = 0
+		if T.Chance("cfg.faults", 1, 3) {
+			faults = 1
+		}
+	}
+	if faults == 2 {
+		m.Faulted = true
+		m.step = 0
+		m.NextPlans = []*FaultPlan{{Node: "A", Kind: "db_error", SeamKind: "db", Pos: rc.P("fpos", 1)}}
+		m.Step(rc.P("fop", 1), true)
+		m.CheckBalances("A", "step")
+		for i, k := range []int{1, 2, 1} {
+			m.step = 1 + i
+			m.Step(k, true)
+			m.CheckBalances("A", "step")
+		}
+		m.BeforeAudit = func() { m.CheckBalances("A", "settled") }
+		m.Finale()
+		m.CheckBalances("A", "after drain")
+		return
+	}
 	rc.StepLoop(3, 14, func(i int) {
 		m.step = i
-		if T.Chance("limits", 1, 2) {
+		if faults == 1 && T.Chance("fault.step", 1, 2) {
+			m.Faulted = true
+			m.NextPlans = []*FaultPlan{{Node: "A", Kind: "db_error", SeamKind: "db", Pos: 1 + T.Choose("fault.pos", 12)}}
+			m.Step([]int{1, 1, 2, 0, 12}[T.Choose("fault.op", 5)], true)
+			m.CheckBalances("A", "step")
+			return
+		}
+		if T.Chance("limits", 1, 2) && !m.Faulted {
 			m.StepQuoteLimits()
-		} else if T.Chance("fill", 1, 4) {
+		} else if T.Chance("fill", 1, 4) && !m.Faulted {
 			m.StepFillToMax()
 		} else {
 			m.Step(T.Pick("step.kind", weights...), true)
